@@ -57,6 +57,7 @@ let crs : element list Lazy.t = lazy (
     pts
   end)
 let cfg = lazy (c_config (Lazy.force crs))
+let pc_tables = lazy (Array.of_list (List.mapi (fun i p -> lazy (c_pc_table (nat_of_int i) p)) (Lazy.force crs)))
 
 (* ---------- polynomial / vector specs (shared with the Go harness) ---------- *)
 let prng_k = ZZ.of_string "0x9e3779b97f4a7c15f39cc0605cedc835"
@@ -263,6 +264,14 @@ let handle toks =
        | None -> "NIL" | Some (x, y) -> fphex x ^ " " ^ fphex y)
   | ["commit"; spec] ->
       hex_of_bytes (bw_bytes (c_commit (Lazy.force crs) (poly_of_spec 256 spec)))
+  | ["commitpc"; spec] ->
+      (* algorithm-level commitment: the Coq model of the precomputed-table MSM; the tables of
+         the points actually used are built lazily (the loop below is MSMPrecomp.MSM's loop) *)
+      let tabs = Lazy.force pc_tables in
+      let res = ref bw_identity in
+      List.iteri (fun i s -> if i < Array.length tabs then res := c_pc_scalar_mul (Lazy.force tabs.(i)) s !res)
+        (poly_of_spec 256 spec);
+      hex_of_bytes (bw_bytes !res)
   | ["crs"; i] -> hex_of_bytes (bw_bytes (List.nth (Lazy.force crs) (int_of_string i)))
   | ["mprd"; spec; h] ->
       (match mp_read strict_probe (reader_of_spec spec (bytes_of_hex h)) with
